@@ -1,3 +1,17 @@
-From Hio Require Import Base.Prelude Model.Sched.
-Theorem C30_placeholder : True. Proof. exact I. Qed.
-Print Assumptions C30_placeholder.
+(* C30 — running under asyncio gives the same schedule as the plain loop.
+   In src/hio/base/doing.py Doist.ado is Doist.do with `await asyncio.sleep(0)` between
+   cycles (and an AsyncTimer in real-time mode); no scheduler state is involved in
+   the wait, so the model has ONE definition of the run for both (Model/Sched.v:
+   ado_run := do_run).  The theorem below is therefore true by construction and
+   carries no assurance by itself.  What decides C30 is the two-way correspondence
+   of harness/drivers/c30.py: every generated program is run twice on the real
+   Doist, with do() and with asyncio.run(ado()); both observations (full event
+   trace with tymes, done flags, doers lists, final tyme, raised/returned) must
+   equal the one model run and each other.  The theorems about do_run (C01–C06)
+   transfer to ado through that equality. *)
+From Hio Require Import Base.Prelude Base.Time Model.Sched.
+
+Theorem C30_ado_is_do :
+  forall (T : Type) (TT : Time T) (cycles fuel : nat) (p : prog T), ado_run cycles fuel p = do_run cycles fuel p.
+Proof. reflexivity. Qed.
+Print Assumptions C30_ado_is_do.
